@@ -16,7 +16,9 @@ class Grammar(qc.QGrammar):
         P.queue(qc.GQ_DEFAULT, 2)
         P.queue(qc.GQ_UTILITY, 2, qos=2)
         P.queue(Q_SERIAL, 0)
-        P.queue(Q_CONC, 1, width=[0, 0, 0, 3][h[10] % 4])
+        P.queue(Q_CONC, 1, width=[0, 0, 2, 3, 5][h[10] % 5])
+        if P.queues[Q_CONC]["width"]:
+            P.features.add("width-limited-queue")
         P.queue(Q_CONC_ON_SERIAL, 1, Q_SERIAL, flags=2)
         P.queue(Q_CONC_ON_CONC, 1, Q_CONC, flags=2 if h[11] % 2 else 0)
         P.queue(Q_SERIAL2, 0, qc.GQ_UTILITY if h[11] % 4 == 3 else -1, flags=2 if h[11] % 4 == 3 else 0)
@@ -145,7 +147,7 @@ class Check(E3Check):
             "hierarchies, nested up to depth 3 (lock-order discipline; nesting onto the queue the caller already runs on only for a private concurrent queue "
             "that a single thread uses for nothing but dispatch_apply), racing with async/sync/barrier items and with other applies. Oracles: each index in 0..n-1 invoked exactly once per call and no other index; by the k-th return k*n invocations "
             "have finished; on a serial (or serial-bottomed) queue invocations are sequential in index order; on concurrent queues they obey barriers like readers (C04 "
-            "oracle); liveness via the stuck witness. Non-trivial: >= 2 threads executed indices of one apply, or an apply went through a custom queue; distinct = "
+            "oracle) and, where the queue was narrowed with dispatch_queue_set_width, one apply call never has more invocations running at once than that width (dispatch_sync may overcommit the width by design, so plain items are not counted); liveness via the stuck witness. Non-trivial: >= 2 threads executed indices of one apply, or an apply went through a custom queue; distinct = "
             "distinct program texts.")
     assumptions = ["one-sided stamp logic (DESIGN S2)"]
     G = Grammar()
@@ -164,6 +166,7 @@ class Check(E3Check):
         vs += v2
         for q in [q for q in prog.queues if prog.queues[q]["kind"] == 1]:
             vs += qc.barrier_verdicts(prog, hist, q)
+        vs += qc.width_verdicts(prog, hist)
         return vs
 
     def nontrivial(self, prog, hist):
